@@ -30,7 +30,7 @@ RULE_HOME = {
     'W1': 'w_api', 'W2': 'w_api', 'W3': 'w_api', 'W4': 'w_api', 'W5': 'w_api', 'W6': 'w_api',
     'G2': 'g_lex', 'G4': 'g_lex',
     'S1': 's_state', 'S2': 's_state', 'S3': 's_state', 'S4': 's_state', 'S5': 's_state', 'S6': 's_state', 'S7': 's_state',
-    'P1': 'p_panic', 'X4': 'x_emit', 'X13': 'x_macro', 'X14': 'x_macro', 'X15': 'x_macro', 'X16': 'x_macro', 'X17': 'x_range', 'X18': 'x_split', 'X19': 'x_split', 'G6t': 'g_alt', 'G16': 'g_args', 'G17': 'g_args',
+    'P1': 'p_panic', 'X4': 'x_emit', 'X13': 'x_macro', 'X14': 'x_macro', 'X15': 'x_macro', 'X16': 'x_macro', 'X17': 'x_range', 'X18': 'x_split', 'X19': 'x_split', 'G6t': 'g_alt', 'G16': 'g_args', 'G17': 'g_args', 'G18': 'g_args',
 }
 
 
@@ -337,15 +337,17 @@ PROPS = {
         'needs_mir': True,
     },
     'C06': {
-        'rules': [rule('X4', drop=['strip-']), rule('X1'), rule('G10'), rule('G15'), rule('G17', keep=['string-literal:'])],
+        'rules': [rule('X4', drop=['strip-']), rule('X1'), rule('G10'), rule('G15'), rule('G17', keep=['string-literal:']), rule('G18')],
         'explanation': 'Restricted to the directive-free part of the pp type graph (SourceDescription::{Comment, StringLiteral, NotDirective, '
                        'EscapedIdentifier} and their trivia) every leaf is emitted exactly once: each variant has an emitting arm (X4b), an '
                        'arm that pushes its whole node either skips the node, or suppresses exactly the descendants that would emit '
                        'again, or the node is a single leaf (X4a); each emission records its own range as origin (X1) — identity on text '
                        'and offsets; the preprocessor applies all_consuming to pp_parser, so nothing is dropped silently (G10). The string '
                        'alternative of the partition ends a literal only at an unescaped quote: its interior stops at quote and backslash and '
-                       'every backslash takes the next character with it (G17), so a string is rejected only when it is unterminated.',
-        'decided': 'X4a X4b X1 G10 G17 G15 (G15: a token-level boundary test that needs a next character has an end-of-input alternative, so text ending right after the token is not rejected)',
+                       'every backslash takes the next character with it (G17), so a string is rejected only when it is unterminated. The plain-text '
+                       'run stops exactly at the first characters of its sibling alternatives, and a lone `/` is refused exactly before the '
+                       'second character of a comment opener (G18): no directive-free character sequence is left without an alternative.',
+        'decided': 'X4a X4b X1 G10 G17 G18 G15 (G15: a token-level boundary test that needs a next character has an end-of-input alternative, so text ending right after the token is not rejected)',
         'not_decided': 'the rejection clause (which inputs pp_parser rejects); the fixed-point clause (a relation between two runs)',
         'assumptions': ['below a CompilerDirective node white_space yields only WhiteSpace::Space (premise checked from the white_space body and the begin/end_directive bracket)'],
         'level_text': 'Arm-by-arm emission analysis over the CST type graph: each arm that can emit a leaf twice or a kind without handler is named.',
@@ -367,8 +369,8 @@ PROPS = {
     },
     'C05': {
         'rules': [rule('X13'), rule('X18'), rule('X19'), rule('G16'), rule('G17', keep=['argument-string:']), rule('X9'), rule('X10'), rule('X4', drop=['strip-', 'double-emission'])],
-        'explanation': 'NARROW claim: the structural clauses of macro expansion and the run-splitting of the macro body are decided; '
-                       'the rewrite chain applied to each run and the argument lexer are not. '
+        'explanation': 'NARROW claim: the structural clauses of macro expansion, the run-splitting of the macro body, the substitution loop with its '
+                       'rewrite table and the nesting discipline of the argument lexer are decided; the expanded text as a value is not. '
                        'Misuse is reported by name: DefineNotFound carries the name that was used, DefineArgNotFound the formal that got '
                        'no value, DefineNoArgs the macro name and is raised exactly when the macro has formals and the usage has no '
                        'argument list; formals are walked in order and bound to the actual of the same index, falling back to the '
